@@ -24,6 +24,13 @@ def helper_symbols(P, path, depth=0):
     return out
 
 
+def helper_symbols_safe(P, path):
+    try:
+        return helper_symbols(P, path)
+    except CheckError:
+        return {'?'}
+
+
 def classify(f, s, P=None, depth=0):
     """lifecycle symbol of an emit / fail_task / runner call site."""
     if re.search(FAIL, s.callee):
@@ -210,6 +217,12 @@ def run(ctx):
     total_states = 0
     for path, init in (('ripd::tasks::run_task', 0), ('ripd::tasks::pipes::run_pipes_task', 1), ('ripd::tasks::pty::run_pty_task', 1)):
         f = P.body(path)
+        # private helpers of the task module that emit a lifecycle frame (a status / spawn / cancel emission that
+        # was extracted from the body) are spliced in, so the typestate walks the frames in the order they are sent
+        from ..inline import inline_calls, contains
+        _c = contains(rx_calls=EMIT + '|' + FAIL)
+        f = inline_calls(P, f, lambda body, callee: callee.startswith('ripd::tasks::') and not re.search(RUNNERS + '|' + EMIT + '|' + FAIL + r'|::pump_\w+$', callee)
+                         and _c(body, callee) and not (helper_symbols_safe(P, callee) <= {'O'}), depth=2, note=ctx.note)
         ctx.touch(f)
         syms = {}
         for s in f.sites():
